@@ -267,6 +267,19 @@ def check_C07(run):
                "4k3/8/8/8/8/8/8/R3K2R w E - 0 1", "4k3/8/8/8/8/8/8/RR2K2R w B - 0 1", "4k3/8/8/8/8/8/4K3/R6R w KQ - 0 1",
                "pppppppp" * 8 + " w - - 0 1", "4k3/8/8/8/8/8/8/4K3" + "/" * 300 + " w - - 0 1",
                "4k3/8/8/8/8/8/8/4K3" + "8" * 31 + "7p" + "8" * 0 + " w - - 0 1"]
+    # two passes over the board (sixth seed round: one arm of validate's 15-pair overlap chain tested the wrong pair): a board
+    # field 256 squares too long wraps the u8 square counter in the optimised build, so the last 64 squares are XOR-ed
+    # onto the first 64; every pair of kinds (same and opposite colour, incl. the same man twice = it vanishes) on one square
+    kinds_w = "PNBRQK"
+    for a_ in kinds_w:
+        for b_ in kinds_w + kinds_w.lower():
+            for sq_ in ("a1", "d4"):
+                if a_ == "P" and sq_ == "a1" or b_ in "Pp" and sq_ == "a1":
+                    continue
+                first = {"a1": "4k3/8/8/8/8/8/8/%s3K3" % a_, "d4": "4k3/8/8/8/3%s4/8/8/4K3" % a_}[sq_]
+                second = {"a1": "8/8/8/8/8/8/8/%s7" % b_, "d4": "8/8/8/8/3%s4/8/8/8" % b_}[sq_]
+                special.append(first + "/" + "8/" * 24 + second + " w - - 0 1")
+                special.append(G.mirror_fen(first + " w - - 0 1").split(" ")[0] + "/" + "8/" * 24 + G.mirror_fen(second + " w - - 0 1").split(" ")[0] + " b - - 0 1")
     # castling fields that are syntactically fine but not backed by king and rook on their home rank
     sem = []
     for _ in range(3000 if th else 500):
@@ -575,6 +588,24 @@ def check_C05(run):
                 upd[id(c)] = (st, trip)
             elif roll < 0.75 and other:
                 upd[id(c)] = (rr.choice(other), None)
+            elif roll < 0.88 and items:
+                # a legal move's string spelled almost right (sixth seed round: a case-insensitive matcher played E2E4 / a7a8Q):
+                # upper-case letters, a stray suffix or prefix, a doubled promotion letter -- all must denote nothing
+                st0 = rr.choice(items)[1]
+                kind = rr.randrange(6)
+                if kind == 0:
+                    st1 = st0.upper()
+                elif kind == 1:
+                    st1 = st0[:-1] + st0[-1].upper() if st0[-1].isalpha() else st0[0].upper() + st0[1:]
+                elif kind == 2:
+                    st1 = st0[:2] + st0[2].upper() + st0[3:]
+                elif kind == 3:
+                    st1 = st0 + rr.choice("qnx+#")
+                elif kind == 4:
+                    st1 = rr.choice("KQNRBP") + st0
+                else:
+                    st1 = st0[:4] + (st0[4:].upper() if len(st0) > 4 else "Q")
+                upd[id(c)] = (st1, None)
             else:
                 upd[id(c)] = (rr.choice(junk), None)
         # advance positions: ask the specification what the token denotes via posspec on the single token
